@@ -96,7 +96,7 @@ class Check:
             lines.append(f"KNOWN-FINDING: property={self.pid} key={o['key']} {known[o['key']]}")
         replay = None
         if new:
-            rdir = os.path.join(VERIF, "evidence", "replay")
+            rdir = os.path.join(os.environ.get("VERIF_NO_EVIDENCE") and "/tmp/verif_scratch" or VERIF, "evidence", "replay")
             os.makedirs(rdir, exist_ok=True)
             replay = os.path.join(rdir, f"{self.pid}.json")
             with open(replay, "w") as fh:
@@ -135,6 +135,8 @@ class Check:
 
 
 def write_evidence(pid, ev):
+    if os.environ.get("VERIF_NO_EVIDENCE"):
+        return  # scratch evaluation of a variant tree (seed evaluation): never touches the committed evidence
     d = os.path.join(VERIF, "evidence")
     os.makedirs(d, exist_ok=True)
     with open(os.path.join(d, f"{pid}.json"), "w") as fh:
